@@ -14,7 +14,7 @@ OPS = (C("node_port.py", "tys.py", "ops.py"), ["hugr.ops.DFG.outer_signature", "
 SERIAL = (C("node_port.py", "tys.py", "ops.py", "utils.py", "base.py", "serial.py"), ["hugr.hugr.base._order_port_offset", "hugr.hugr.base.Hugr._constrain_offset"])
 # creation of a dataflow container: Input then Output under the container, Input row = the container's input row; set_outputs hands the
 # wires to the Output node in order and makes the container's output row the Output node's row (graph-store mutators: trusted recorders)
-IO = (C("node_port.py", "build_io.py"), ["hugr.build.dfg.DfBase._init_io_nodes", "hugr.build.dfg.DfBase.set_outputs"])
+IO = (C("node_port.py", "build_io.py"), ["hugr.build.dfg.DfBase._init_io_nodes", "hugr.build.dfg.DfBase.set_outputs", "hugr.build.dfg.DfBase.add_op"])
 
 
 def run(tier, seed):
